@@ -4,12 +4,17 @@
 // real map (the real locking still happens) and record every cache touch and guard drop of the calling thread
 // in a global, sequence-numbered log. Function bodies of the namespace are untouched, so guard lifetimes are
 // observed exactly as written.
+//
+// Two further switches serve the replay of model-checked interleavings: a gate called before every cache
+// touch and guard drop (a scheduler can hold the calling thread there), and a forced assignment of keys to
+// shards for maps created while it is set (which keys share a shard lock is otherwise up to a random hasher).
 
 use crate::defs::namespace::DefDict;
 use crate::val::{Dict, Symbol};
 use dashmap::{mapref::one::Ref, DashMap};
+use std::collections::hash_map::{DefaultHasher, RandomState};
 use std::fmt::Debug;
-use std::hash::Hash;
+use std::hash::{BuildHasher, Hash, Hasher};
 use std::ops::Deref;
 use std::sync::atomic::{AtomicBool, AtomicU64, Ordering};
 use std::sync::Mutex;
@@ -29,6 +34,84 @@ static SEQ: AtomicU64 = AtomicU64::new(0);
 static MAP_IDS: AtomicU64 = AtomicU64::new(0);
 static ENABLED: AtomicBool = AtomicBool::new(false);
 static LOG: Mutex<Vec<HookEvent>> = Mutex::new(Vec::new());
+
+/// Called before a cache touch (`get`, `contains`, `insert`) or a guard `drop` of the calling thread
+pub type Gate = fn(thread: u64, op: &'static str, map: u64, key: &str);
+/// Shard index for a key, or None to leave the key to the random hasher
+pub type ShardOf = fn(key: &str) -> Option<usize>;
+
+static GATE: Mutex<Option<Gate>> = Mutex::new(None);
+static FORCED_SHARDS: Mutex<Option<(usize, ShardOf)>> = Mutex::new(None);
+
+pub fn set_gate(gate: Option<Gate>) {
+    *GATE.lock().unwrap_or_else(|e| e.into_inner()) = gate;
+}
+
+/// Maps created from now on have `shard_amount` shards (a power of two > 1) and put a key into the shard the table names
+pub fn set_forced_shards(forced: Option<(usize, ShardOf)>) {
+    *FORCED_SHARDS.lock().unwrap_or_else(|e| e.into_inner()) = forced;
+}
+
+fn pass_gate(op: &'static str, map: u64, key: &str) {
+    if !ENABLED.load(Ordering::Relaxed) {
+        return;
+    }
+    let gate = *GATE.lock().unwrap_or_else(|e| e.into_inner());
+    if let Some(gate) = gate {
+        gate(THREAD_ID.with(|t| t.get()), op, map, key);
+    }
+}
+
+/// Hasher state of a `TracedMap`: the standard random hasher, with the shard-selecting bits of the hash overwritten
+/// when a forced assignment was set at creation time
+#[derive(Clone)]
+pub struct ShardState {
+    forced: Option<(usize, ShardOf)>,
+    random: RandomState,
+}
+
+pub struct ShardHasher {
+    forced: Option<(usize, ShardOf)>,
+    bytes: Vec<u8>,
+    inner: DefaultHasher,
+}
+
+impl BuildHasher for ShardState {
+    type Hasher = ShardHasher;
+    fn build_hasher(&self) -> ShardHasher {
+        ShardHasher {
+            forced: self.forced,
+            bytes: Vec::new(),
+            inner: self.random.build_hasher(),
+        }
+    }
+}
+
+impl Hasher for ShardHasher {
+    fn write(&mut self, bytes: &[u8]) {
+        self.inner.write(bytes);
+        if self.forced.is_some() {
+            self.bytes.extend_from_slice(bytes);
+        }
+    }
+
+    fn finish(&self) -> u64 {
+        let hash = self.inner.finish();
+        if let Some((shard_amount, shard_of)) = self.forced {
+            // a hashed `str` is its bytes followed by 0xff
+            let end = self.bytes.iter().position(|b| *b == 0xff).unwrap_or(self.bytes.len());
+            let key = std::str::from_utf8(&self.bytes[..end]).unwrap_or("");
+            if let Some(index) = shard_of(key) {
+                // dashmap selects the shard as `(hash << 7) >> (64 - log2(shard_amount))`
+                let bits = shard_amount.trailing_zeros() as u64;
+                let at = 64 - 7 - bits;
+                let mask = ((shard_amount as u64) - 1) << at;
+                return (hash & !mask) | (((index % shard_amount) as u64) << at);
+            }
+        }
+        hash
+    }
+}
 
 thread_local! {
     static THREAD_ID: std::cell::Cell<u64> = const { std::cell::Cell::new(0) };
@@ -93,23 +176,53 @@ impl KeyName for Symbol {
     }
 }
 
-#[derive(Debug)]
 pub struct TracedMap<K: Eq + Hash, V> {
     id: u64,
-    inner: DashMap<K, V>,
+    shard_amount: usize,
+    inner: DashMap<K, V, ShardState>,
+}
+
+impl<K: Eq + Hash + Debug, V: Debug> Debug for TracedMap<K, V> {
+    fn fmt(&self, f: &mut std::fmt::Formatter<'_>) -> std::fmt::Result {
+        f.debug_struct("TracedMap").field("id", &self.id).field("inner", &self.inner).finish()
+    }
 }
 
 impl<K: Eq + Hash, V> Default for TracedMap<K, V> {
     fn default() -> Self {
+        let forced = *FORCED_SHARDS.lock().unwrap_or_else(|e| e.into_inner());
+        let state = ShardState {
+            forced,
+            random: RandomState::new(),
+        };
         TracedMap {
             id: MAP_IDS.fetch_add(1, Ordering::SeqCst) + 1,
-            inner: DashMap::default(),
+            shard_amount: forced.map(|f| f.0).unwrap_or(0),
+            inner: match forced {
+                Some((shard_amount, _)) => DashMap::with_hasher_and_shard_amount(state, shard_amount),
+                None => DashMap::with_hasher(state),
+            },
         }
     }
 }
 
 impl<K: Eq + Hash + KeyName, V: Project> TracedMap<K, V> {
+    /// The id under which this map appears in the log, and the shard a key falls into
+    pub fn id(&self) -> u64 {
+        self.id
+    }
+
+    /// The shard a key falls into; known for maps created under a forced assignment only
+    pub fn shard_of(&self, key: &K) -> Option<usize> {
+        if self.shard_amount == 0 {
+            return None;
+        }
+        let hash = self.inner.hasher().hash_one(key) as usize;
+        Some((hash << 7) >> (usize::BITS - self.shard_amount.trailing_zeros()))
+    }
+
     pub fn get<'a>(&'a self, key: &K) -> Option<TracedRef<'a, K, V>> {
+        pass_gate("get", self.id, &key.key_name());
         match self.inner.get(key) {
             Some(guard) => {
                 // logged while the guard is held
@@ -127,6 +240,7 @@ impl<K: Eq + Hash + KeyName, V: Project> TracedMap<K, V> {
     }
 
     pub fn contains_key(&self, key: &K) -> bool {
+        pass_gate("contains", self.id, &key.key_name());
         let present = self.inner.contains_key(key);
         record("contains", self.id, key.key_name(), present, Vec::new());
         present
@@ -135,6 +249,7 @@ impl<K: Eq + Hash + KeyName, V: Project> TracedMap<K, V> {
     pub fn insert(&self, key: K, value: V) -> Option<V> {
         let name = key.key_name();
         let projected = value.project();
+        pass_gate("insert", self.id, &name);
         record("insert-begin", self.id, name.clone(), false, projected.clone());
         let old = self.inner.insert(key, value);
         record("insert", self.id, name, old.is_some(), projected);
@@ -156,7 +271,8 @@ impl<K: Eq + Hash, V> Deref for TracedRef<'_, K, V> {
 
 impl<K: Eq + Hash, V> Drop for TracedRef<'_, K, V> {
     fn drop(&mut self) {
-        // logged before the guard is released (fields are dropped after this body)
+        // gated and logged before the guard is released (fields are dropped after this body)
+        pass_gate("drop", self.map, "");
         record("drop", self.map, String::new(), false, Vec::new());
     }
 }
